@@ -163,31 +163,27 @@ def distinctTotal (conv : Val → String) (spans : List Span) (fields : List Str
 /-- same set of values -/
 def SameSet (a b : List String) : Prop := ∀ s, s ∈ a ↔ s ∈ b
 
-/-! ## the tail of `GetSampleRate` (identical in all five samplers)
+/-! ## the tail of `GetSampleRate` (identical in all five samplers; as of commit 6dd5492)
 
 ```
-rate = uint(d.dynsampler.GetSampleRateMulti(key, count))
-if rate < 1 { rate = 1 }
-shouldKeep := rand.Intn(int(rate)) == 0      -- panics when int(rate) <= 0
+answer := d.dynsampler.GetSampleRateMulti(key, count)
+if answer < 1 { answer = 1 }                 -- compared as an int, before the conversion
+rate = uint(answer)
+shouldKeep := rand.Intn(int(rate)) == 0      -- int(rate) = answer >= 1: Intn's precondition holds
 ```
-`r` is what dynsampler returned (Go `int`, 64 bit), `intn n` the value `rand.Intn(n)` returned. -/
+`r` is what dynsampler returned (any Go `int`), `intn n` the value `rand.Intn(n)` returned. -/
 
-inductive Decision where
-  | panic                                  -- `rand.Intn`: "invalid argument to Intn"
-  | ok (rate : Nat) (keep : Bool)
+structure Decision where
+  rate : Nat
+  keep : Bool
   deriving DecidableEq, Repr
 
-def two64 : Nat := 18446744073709551616
 def two63 : Nat := 9223372036854775808
 
-/-- `uint(r)` for a 64-bit `int` -/
-def toUint (r : Int) : Nat := (r % (two64 : Int)).toNat
-
 def decision (r : Int) (intn : Nat → Nat) : Decision :=
-  let rate0 := toUint r
-  let rate := if rate0 < 1 then 1 else rate0
-  -- int(rate) <= 0  ⇔  rate >= 2^63  (rate ≥ 1 here)
-  if rate ≥ two63 then .panic else .ok rate (intn rate == 0)
+  let answer : Int := if r < 1 then 1 else r
+  let rate := answer.toNat                   -- uint(answer), answer ≥ 1
+  ⟨rate, intn rate == 0⟩
 
 /-- `GetSampleRate`: build the key, ask dynsampler with (key, number of spans), decide.
 Returns the key and the decision. -/
